@@ -301,7 +301,7 @@ def check_polar(res, M, left, tag):
     except Exception as e:  # the statement promises a decomposition for every real 3x3 matrix
         res.violation(f"polar:{side}:raises", f"polar_decompose raised {type(e).__name__}: {e}", rep)
         return None
-    s = max(1.0, np.abs(M).max())
+    s = float(np.abs(M).max()) or 1.0     # the decomposition is scale equivariant: tolerances relative to |M| (SI-unit gradients ~1e-16 included)
     if not np.isfinite(R).all() or np.abs(R.T @ R - np.eye(3)).max() > 1e-10:
         res.violation(f"polar:{side}:orthogonal", "rotation factor is not orthogonal", rep)
     if np.abs(P - P.T).max() > 1e-12 * s:
@@ -322,13 +322,20 @@ def check_invariants(res, M, tag):
     e1 = lam.sum()
     e2 = lam[0] * lam[1] + lam[1] * lam[2] + lam[2] * lam[0]
     e3 = lam.prod()
-    s = max(1.0, np.abs(M).max())
+    s = float(np.abs(M).max()) or 1.0
+    # scale of the determinant: the product of the row sums of |M| bounds every term of its expansion (Hadamard-type bound); a
+    # backward-stable determinant is accurate relative to it, also when the eigenvalues span many decades
+    s3 = max(float(np.prod(np.abs(M).sum(axis=1))), 1e-30 * s ** 3)
     # eigenvalues of defective / nearly defective matrices are only accurate to ~sqrt(eps): compare through the
     # characteristic polynomial instead when the eigenvalue route disagrees
-    bad = max(abs(I1 - e1) / s, abs(I2 - e2) / s ** 2, abs(I3 - e3) / s ** 3)
+    bad = max(abs(I1 - e1) / s, abs(I2 - e2) / s ** 2, abs(I3 - e3) / s3)
     if bad > 1e-9:
         cp = np.poly(M)  # x^3 - I1 x^2 + I2 x - I3
-        bad = max(abs(I1 + cp[1]) / s, abs(I2 - cp[2]) / s ** 2, abs(I3 + cp[3]) / s ** 3)
+        bad = max(abs(I1 + cp[1]) / s, abs(I2 - cp[2]) / s ** 2, abs(I3 + cp[3]) / s3)
+    if bad > 1e-9:
+        d3 = (M[0, 0] * (M[1, 1] * M[2, 2] - M[1, 2] * M[2, 1]) - M[0, 1] * (M[1, 0] * M[2, 2] - M[1, 2] * M[2, 0])
+              + M[0, 2] * (M[1, 0] * M[2, 1] - M[1, 1] * M[2, 0]))
+        bad = max(abs(I1 - np.trace(M)) / s, abs(I3 - d3) / s3)
     if bad > 1e-9:
         res.violation("invariants:esymm", "invariants differ from the elementary symmetric functions of the eigenvalues",
                       {"kind": "invariants", "M": M.tolist(), "case": tag})
@@ -561,6 +568,14 @@ def run(ctx, res):
         M = mats3(rng, kind)
         if k % 7 == 0:
             M = M * 10.0 ** rng.integers(-3, 4)
+        elif k % 7 == 3:
+            M = M * 10.0 ** float(rng.choice([-17, -16, -12, 8, 12]))       # SI-unit magnitudes
+            res.count("mat3:extreme_scale")
+        elif k % 7 == 5 and kind in ("diag", "triangular", "symmetric", "defgrad"):
+            # eigenvalues spanning many decades (large finite strains): well scaled entries, ill-conditioned matrix
+            e_ = float(rng.uniform(8, 15))
+            M = np.diag([np.exp(e_), 1.0, np.exp(-e_)]) + (np.triu(rng.normal(size=(3, 3)), 1) if kind == "triangular" else 0.0)
+            res.count("mat3:eigenvalues_spanning_decades")
         res.count("mat3:" + kind)
         if M.any():
             res.nontrivial(("mat3", M.tobytes()))
